@@ -169,5 +169,19 @@ theorem shuffled_resume_within_bound (P : Problem α) (c : BatchCfg) (γ ε : α
   C01.semiasync_solve_near_optimal P c γ ε S hw perms' hperms choose f' k2 (restoredState false snap)
     (by simpa [restoredState] using hsnap) hc pl hpl W U hW hU i
 
+/-- closed form: the optimal value function and the resumed run's policy value exist, and the bound holds for them -/
+theorem shuffled_resume_within_bound_closed (P : Problem α) (c : BatchCfg) (γ ε : α) (S : C01.Setting P c γ) (hw : C01.IdxWF P)
+    (snap : SState α) (hsnap : snap.values.length = P.nS)
+    (perms' : Nat → Option (List Nat)) (hperms : ∀ n, (orderOf' c.n (perms' n)).Perm (List.range c.n)) (choose : Nat → Bool)
+    (f' k2 : Nat)
+    (hc : (semiSolve P c γ (ε * (1 - γ) / γ) .maxDiff perms' choose f' k2 (restoredState false snap)).converged = true)
+    (pl : List Nat)
+    (hpl : (semiSolve P c γ (ε * (1 - γ) / γ) .maxDiff perms' choose f' k2 (restoredState false snap)).state.policy = some pl) :
+    ∃ W U, C01.IsOptimalValue P γ W ∧ Tpol P γ (C01.polFn P.nS pl) U = U ∧ ∀ i,
+      |toFn P.nS (semiSolve P c γ (ε * (1 - γ) / γ) .maxDiff perms' choose f' k2 (restoredState false snap)).state.values i - W i| < ε ∧
+      0 ≤ W i - U i ∧ W i - U i < 2 * γ * ε / (1 - γ) :=
+  C01.semiasync_solve_near_optimal_closed P c γ ε S hw perms' hperms choose f' k2 (restoredState false snap)
+    (by simpa [restoredState] using hsnap) hc pl hpl
+
 end instances
 end MdpaxV.C09
